@@ -362,6 +362,84 @@ pub fn scale_shapes(tier: Tier) -> Vec<Shape> {
     out
 }
 
+/// U-pattern: shapes that are too many (or too similar) for the corruption universe but matter for the clean paths:
+///  * every opcode with a variadic operand with 3, 4 and 5 repetitions (a middle element that is neither first nor last);
+///  * every mask kind: every combination of exactly three declared bits (every subset for masks of <= 8 bits);
+///  * 32-bit literal / id payloads with particular bit patterns (sign bit, top byte, alternating bits, low half zero,
+///    a value and its byte-swapped form) at every literal / id position of a few carriers.
+pub fn pattern_shapes(tier: Tier) -> Vec<Shape> {
+    let g = golden();
+    let mut out = vec![];
+    for gi in &g.insts {
+        if has_variadic(gi) {
+            for n in [3usize, 4, 5] {
+                out.push(Shape { id: format!("{}:pattern:var{}", gi.name, n), inst: build(gi, n_optional(gi), n, None) });
+            }
+        }
+    }
+    // masks: one carrier per kind (the first opcode in table order that has the kind as a plain operand)
+    let mut done: std::collections::BTreeSet<String> = std::collections::BTreeSet::new();
+    for gi in &g.insts {
+        let vo = gi.value_operands();
+        for (pos, (kind, q)) in vo.iter().enumerate() {
+            if !g.is_mask_kind(kind) || *q == Quant::ZeroOrMore || done.contains(kind) {
+                continue;
+            }
+            done.insert(kind.clone());
+            let n_opt = vo[..=pos].iter().filter(|o| o.1 == Quant::ZeroOrOne).count();
+            let bits: Vec<u32> = g.masks[kind].nonzero().iter().map(|b| b.1).filter(|b| b.count_ones() == 1).collect();
+            let mut combos: Vec<u32> = vec![];
+            if bits.len() <= 8 {
+                for sub in 0u32..(1 << bits.len()) {
+                    combos.push(bits.iter().enumerate().filter(|(i, _)| sub & (1 << i) != 0).map(|(_, b)| *b).fold(0, |a, b| a | b));
+                }
+            } else {
+                let lim = if tier == Tier::Thorough { bits.len() } else { bits.len().min(16) };
+                for a in 0..lim {
+                    for b in a + 1..lim {
+                        for c in b + 1..lim {
+                            combos.push(bits[a] | bits[b] | bits[c]);
+                        }
+                    }
+                }
+            }
+            for m in combos {
+                out.push(Shape { id: format!("{}:pattern:{}={:#x}", gi.name, kind, m), inst: build(gi, n_opt, 0, Some((pos, 0, mask_with_params(kind, m, 500 + 16 * pos as u32)))) });
+            }
+        }
+    }
+    // bit patterns at every id / 32-bit literal position of a few carriers
+    let pats = [0x8000_0001u32, 0xFF00_0000, 0x00FF_0000, 0xAAAA_AAAA, 0x5555_5555, 0x1234_0000, 0x0000_8000, 0x7FFF_FFFE, 0x0102_0304, 0x0403_0201, 0x8000_0000 | 54];
+    for name in ["IAdd", "Decorate", "MemberDecorate", "TypeInt", "TypeVector", "TypeArray", "Line", "Source", "CompositeExtract", "VectorShuffle", "ExtInst", "AccessChain", "Phi", "LoopMerge", "ExecutionMode", "Switch", "ControlBarrier"] {
+        let gi = g.inst(name);
+        let base = fullest(gi);
+        for (k, a) in base.args.iter().enumerate() {
+            for p in pats {
+                let na = match a {
+                    Arg::IdRef(_) => Arg::IdRef(p),
+                    Arg::IdScope(_) => Arg::IdScope(p),
+                    Arg::IdMemSem(_) => Arg::IdMemSem(p),
+                    Arg::Lit32(_) => Arg::Lit32(p),
+                    Arg::ExtInstNo(_) => Arg::ExtInstNo(p),
+                    _ => continue,
+                };
+                let mut i = base.clone();
+                i.args[k] = na;
+                out.push(Shape { id: format!("{}:pattern:arg{}={:#x}", name, k, p), inst: i });
+            }
+        }
+        for p in pats {
+            let mut i = base.clone();
+            if i.rid.is_some() {
+                i.rid = Some(p);
+                i.rtype = i.rtype.map(|_| p ^ 0xFFFF);
+                out.push(Shape { id: format!("{}:pattern:result={:#x}", name, p), inst: i });
+            }
+        }
+    }
+    out
+}
+
 pub fn all_shapes(tier: Tier) -> Vec<Shape> {
     let g = golden();
     let mut out = vec![];
